@@ -17,36 +17,26 @@ namespace DD
 
 deriving instance DecidableEq for SchedItem
 
-/-- the choice read off a schedule -/
+/-- the choice read off a schedule: the `k`-th item answers the `k`-th query, if it fits -/
 def Choice.ofSched (sch : List SchedItem) : Choice where
-  names l :=
-    match sch.findSome? (fun (it : SchedItem) => match it with
-      | .sift ns => if ns.Perm l then some ns else none
-      | .swap _ => none) with
-    | some ns => ns
-    | none => l
+  names k l :=
+    match sch[k]? with
+    | some (.sift ns) => if ns.Perm l then ns else l
+    | _ => l
   level k j l :=
     match sch[k]? with
     | some (.swap lv) => if ((lv.lookup j).getD []).Perm l then (lv.lookup j).getD [] else l
     | _ => l
 
 theorem Choice.ofSched_valid (sch : List SchedItem) : (Choice.ofSched sch).Valid := by
-  refine ⟨fun l => ?_, fun k j l => ?_⟩
-  · show (match sch.findSome? (fun (it : SchedItem) => match it with
-      | .sift ns => if ns.Perm l then some ns else none
-      | .swap _ => none) with
-      | some ns => ns
-      | none => l).Perm l
+  refine ⟨fun k l => ?_, fun k j l => ?_⟩
+  · show (match sch[k]? with
+      | some (.sift ns) => if ns.Perm l then ns else l
+      | _ => l).Perm l
     split
-    · rename_i ns h
-      obtain ⟨it, _, hit⟩ := List.exists_of_findSome?_eq_some h
-      cases it with
-      | sift ns' =>
-        simp only at hit
-        split at hit
-        · cases hit; assumption
-        · cases hit
-      | swap lv => cases hit
+    · split
+      · assumption
+      · exact .refl _
     · exact .refl _
   · show (match sch[k]? with
       | some (.swap lv) => if ((lv.lookup j).getD []).Perm l then (lv.lookup j).getD [] else l
